@@ -40,6 +40,16 @@ def gen_case(rng, cid, ops=OPS, nmax=5, maxelems=120, ev="Stencil", allow_empty=
         dimctr = [0]
         naxes = rng.choice([1, 1, 1, 2, 2, 3])
         axes = [gen.rand_axis(rng, k + 1, dimctr, nmax) for k in range(naxes)]
+        shared_table = ev == "Stencil" and rng.random() < 0.03
+        if shared_table:
+            # two axes of different layout given ONE partial default-shift table (it does not speak of the centre): the
+            # first has a single face position, the second has two, so their fallbacks from the centre differ
+            dimctr = [0]
+            f1, f2 = rng.sample(FACE, 2)
+            first = gen.rand_axis(rng, 1, dimctr, 3, positions=["center", f2])
+            second = gen.rand_axis(rng, 2, dimctr, 3, positions=rng.sample(["center", f1, f2], 3))
+            axes = [first, second]
+            naxes = 2
         axnames = [a["name"] for a in axes]
         extra = []
         for _ in range(rng.choice([0, 0, 1, 1, 2])):
@@ -47,6 +57,8 @@ def gen_case(rng, cid, ops=OPS, nmax=5, maxelems=120, ev="Stencil", allow_empty=
             extra.append([f"d{dimctr[0]}", rng.randint(1, 3)])
         ctor = gen.rand_ctor(rng, axnames)
         ctor["default_shifts"] = gen.rand_default_shifts(rng, axes)
+        if shared_table:
+            ctor["default_shifts"] = M([[a["name"], [[f2, "center"]]] for a in axes])
         if ev == "Stencil" and rng.random() < 0.2:
             # Grid-level mappings that name only some axes: the others keep the periodic flag's rule / the fill value 0
             for k_ in ("boundary", "fill_value"):
@@ -58,6 +70,8 @@ def gen_case(rng, cid, ops=OPS, nmax=5, maxelems=120, ev="Stencil", allow_empty=
         nop = rng.randint(1, naxes)
         opaxes = rng.sample(axes, nop)
         mode = rng.choice(["none", "s", "m", "m"])
+        if shared_table:
+            opaxes, mode = rng.choice([[axes[1]], [axes[1], axes[0]], [axes[0], axes[1]]]), "none"
         dims_shape, to_pairs, ok = [], [], True
         scalar_to = None
         if mode == "s":
